@@ -85,6 +85,7 @@ func init() {
 				return err
 			}
 			nSeeds = len(W.Objs)
+			c09BuildMismatch()
 			return nil
 		},
 		Solo: c09Solo,
@@ -118,11 +119,18 @@ func init() {
 				}
 			}
 		},
-		Cases: func(c *mon.Ctx) int { return nSeeds + c.Pick(30000, 600000) + c09OwnKeyCases + c09Directed(c) },
+		Cases: func(c *mon.Ctx) int {
+			return nSeeds + c.Pick(30000, 600000) + c09OwnKeyCases + c09Directed(c) + len(c09Mismatch)
+		},
 		RunCase: func(c *mon.Ctx, i int) {
 			var o *mon.Obj
 			var desc string
-			if base := nSeeds + c.Pick(30000, 600000); i >= base+c09OwnKeyCases {
+			if nm := nSeeds + c.Pick(30000, 600000) + c09OwnKeyCases + c09Directed(c); i >= nm {
+				o, desc = c09MismatchCase(i - nm)
+				if o != nil {
+					c.R.Count("alg_mismatch_bases", 1)
+				}
+			} else if base := nSeeds + c.Pick(30000, 600000); i >= base+c09OwnKeyCases {
 				// directed families: the small ones completely (among them every key type under every signature
 				// algorithm - lints that look at the signature FIELD have most to decide there), a hashed sample of the
 				// two big ones
@@ -173,6 +181,7 @@ func init() {
 				gates = append(gates, "too few non-self-issued certificates compared")
 			}
 			ev.Coverage["variants_not_comparable"] = r.Counters["variant_not_comparable"]
+			ev.Coverage["alg_mismatch_bases_accepted"] = r.Counters["alg_mismatch_bases"]
 			return gates
 		},
 	})
@@ -186,6 +195,131 @@ func init() {
 // neither} x signature algorithm field.
 
 const c09OwnKeyCases = 5 * 4 * 2
+
+// ---- certificates whose two signature AlgorithmIdentifiers differ ----
+//
+// The algorithm is declared twice: inside the to-be-signed part and, next to the signature value, outside it. A lint
+// that compares or inspects the OUTER one reads bytes that sit right in front of the signature bits; on certificates
+// where the two differ (parameters changed, dropped, replaced by NULL, another certificate's identifier) such a lint
+// has something to report, and that report must not depend on what follows the identifier. Bases: up to three
+// non-self-issued seeds per signature algorithm; tweaks of the outer and of the inner identifier.
+type c09MM struct {
+	base  int
+	tweak int
+	donor int
+}
+
+var c09Mismatch []c09MM
+
+const c09Tweaks = 7
+
+func c09BuildMismatch() {
+	c09Mismatch = nil
+	per := map[string]int{}
+	var donors []int
+	seenDonor := map[string]bool{}
+	for _, idx := range W.ByKind[corpus.Cert] {
+		o := W.Objs[idx]
+		if bytes.Equal(o.Cert.RawIssuer, o.Cert.RawSubject) {
+			continue
+		}
+		a := o.Cert.SignatureAlgorithm.String()
+		if !seenDonor[a] {
+			seenDonor[a] = true
+			donors = append(donors, idx)
+		}
+		if per[a] >= 3 {
+			continue
+		}
+		per[a]++
+		for t := 0; t < c09Tweaks; t++ {
+			c09Mismatch = append(c09Mismatch, c09MM{idx, t, -1})
+		}
+	}
+	n := len(c09Mismatch)
+	for k := 0; k < n; k += c09Tweaks { // each base also with every other algorithm's identifier outside
+		for _, d := range donors {
+			c09Mismatch = append(c09Mismatch, c09MM{c09Mismatch[k].base, -1, d})
+		}
+	}
+}
+
+func c09MismatchCase(k int) (o *mon.Obj, desc string) {
+	defer func() {
+		if recover() != nil {
+			o = nil
+		}
+	}()
+	mm := c09Mismatch[k]
+	b := W.Objs[mm.base]
+	dc, err := der.ParseCert(b.DER)
+	if err != nil {
+		return nil, ""
+	}
+	setOuter := func(n *der.Node) { dc.Root.Children[1] = n }
+	outer, inner := dc.OuterAlg(), dc.InnerAlg()
+	lastByte := func(n *der.Node) bool { // change the last content octet of the identifier (salt length, trailer, curve, NULL ...)
+		for len(n.Children) > 0 {
+			n = n.Children[len(n.Children)-1]
+		}
+		if n.Wrapped != nil || len(n.Content) == 0 {
+			return false
+		}
+		n.Content[len(n.Content)-1] ^= 0x31
+		return true
+	}
+	switch mm.tweak {
+	case -1:
+		dd, err := der.ParseCert(W.Objs[mm.donor].DER)
+		if err != nil {
+			return nil, ""
+		}
+		setOuter(dd.OuterAlg().Clone())
+		desc = "outer AlgorithmIdentifier taken from " + W.Objs[mm.donor].Name
+	case 0:
+		if !lastByte(outer) {
+			return nil, ""
+		}
+		desc = "last octet of the outer AlgorithmIdentifier changed"
+	case 1:
+		if !lastByte(inner) {
+			return nil, ""
+		}
+		desc = "last octet of the inner AlgorithmIdentifier changed"
+	case 2:
+		if len(outer.Children) < 2 {
+			return nil, ""
+		}
+		outer.Children = outer.Children[:1]
+		desc = "outer parameters dropped"
+	case 3:
+		if len(outer.Children) < 1 {
+			return nil, ""
+		}
+		outer.Children = append(outer.Children[:1], der.Null())
+		desc = "outer parameters replaced by NULL"
+	case 4:
+		if len(inner.Children) < 1 {
+			return nil, ""
+		}
+		inner.Children = append(inner.Children[:1], der.Null())
+		desc = "inner parameters replaced by NULL"
+	case 5:
+		if len(outer.Children) < 2 {
+			return nil, ""
+		}
+		outer.Children = append(outer.Children, outer.Children[1].Clone())
+		desc = "outer parameters repeated"
+	default:
+		if len(inner.Children) < 2 {
+			return nil, ""
+		}
+		inner.Children = inner.Children[:1]
+		desc = "inner parameters dropped"
+	}
+	o, _ = mon.ParseObj(corpus.Cert, b.Name+"#alg-mismatch", dc.Encode())
+	return o, desc
+}
 
 func c09Directed(c *mon.Ctx) int {
 	return directedSmallTail(c) + (directedCount(c)-directedSmallTail(c))/c.Pick(60, 6)
@@ -287,6 +421,32 @@ func c09Judge(c *mon.Ctx, o *mon.Obj, desc string, g lint.Registry, rng *rand.Ra
 			}
 		}
 	}
+	// ... and every top-level field of the to-be-signed part (inner signature AlgorithmIdentifier, issuer, validity,
+	// subject, the key's AlgorithmIdentifier, serial) and the outer AlgorithmIdentifier, each placed at the start, in
+	// the middle and exactly at the end of the signature: a lint that searches the bytes BEHIND the to-be-signed part
+	// for one of these encodings must not find it in the signature
+	func() {
+		defer func() { _ = recover() }() // a mutant whose outline the tree reader does not know: no such variants
+		fields := map[string][]byte{"inner-alg": dc.InnerAlg().Encode(), "outer-alg": dc.OuterAlg().Encode(), "serial": dc.Serial().Encode(),
+			"validity": dc.Validity().Encode(), "issuer": dc.Issuer().Encode(), "subject": dc.Subject().Encode()}
+		if sp := dc.SPKI(); len(sp.Children) > 0 {
+			fields["key-alg"] = sp.Children[0].Encode()
+		}
+		for fname, enc := range fields {
+			if len(enc) == 0 || len(enc) > len(cur) {
+				continue
+			}
+			for _, at := range []struct {
+				where string
+				off   int
+			}{{"start", 0}, {"middle", (len(cur) - len(enc)) / 2}, {"end", len(cur) - len(enc)}} {
+				vb := make([]byte, len(cur))
+				rng.Read(vb)
+				copy(vb[at.off:], enc)
+				variants["holds-"+fname+"-at-"+at.where] = vb
+			}
+		}
+	}()
 	for vname, vb := range variants {
 		if bytes.Equal(vb, cur) {
 			continue
